@@ -21,6 +21,14 @@ UNIVERSES = {
     'nat': (('nat',), (0, 1, 300)),
     'bytes': (('bytes',), (b'', b'\x00', b'\xff\x01')),
     'or_int_bool': (('or', ('int',), ('bool',)), (('Left', -1), ('Left', 2), ('Right', False))),
+    # right combs of 4 and 5 components (the key hash uses the nested, legacy optimized form; PACK would use a sequence)
+    'comb4_int': (R.pair_t(('int',), ('int',), ('int',), ('int',)), ((1, (1, (1, 1))), (1, (1, (1, 2))), (2, (0, (0, -1))))),
+    'comb5_mixed': (R.pair_t(('string',), ('nat',), ('int',), ('bytes',), ('bool',)),
+                    (('a', (0, (-1, (b'', False)))), ('a', (0, (-1, (b'\x00', True)))), ('b', (7, (3, (b'\xff', False)))))),
+    'or_comb4': (('or', R.pair_t(('nat',), ('nat',), ('nat',), ('nat',)), ('unit',)),
+                 (('Left', (0, (0, (0, 1)))), ('Left', (0, (1, (0, 0)))), ('Right', ()))),
+    'option_comb4': (('option', R.pair_t(('string',), ('nat',), ('int',), ('bytes',))),
+                     (None, ('Some', ('a', (1, (-1, b'')))), ('Some', ('a', (1, (0, b'\x01')))))),
 }
 OPS = ('GET', 'MEM', 'UPD+', 'UPD-', 'GAU+', 'GAU-')
 MUTATORS = ('UPD+', 'UPD-', 'GAU+', 'GAU-')
@@ -50,7 +58,7 @@ class Env:
         q.format_docstring = lambda *a, **k: ''          # help-text rendering of query objects (cost only)
         self.uni, self.cfg = uni, cfg
         self.t_key, self.keys = UNIVERSES[uni]
-        self.key_expr = [R.data_to_micheline(self.t_key, k) for k in self.keys]
+        self.key_expr = [S.legacy_optimized(self.t_key, k) for k in self.keys]
         self.hashes = [S.key_hash(self.t_key, k) for k in self.keys]
         self.type_expr = {'prim': 'big_map', 'args': [R.thaw(R.type_to_micheline(self.t_key)) if False else _type_expr(self.t_key),
                                                       {'prim': 'nat'}]}
@@ -206,18 +214,27 @@ def check_diff(env, bm, ref):
         return 'diff.id', f'id {e["id"]} expected {PTR}'
     if env.fresh and (e['diff'].get('key_type') != env.type_expr['args'][0] or e['diff'].get('value_type') != {'prim': 'nat'}):
         return 'diff.types', f'alloc types {e["diff"].get("key_type")} / {e["diff"].get("value_type")}'
+    got = {} if e['diff']['action'] != 'update' else {h: v[1] for h, v in env.chain_by_hash.items()}
     for u in e['diff']['updates']:
-        if u.get('key') not in env.key_expr:
+        try:
+            kv = R.parse_data(env.t_key, u.get('key'))          # notation-independent (comb / nested / sequence)
+        except Exception:
+            kv = None
+        if kv not in env.keys:
             return 'diff.key', f'update for unknown key {u.get("key")}'
-        want = env.hashes[env.key_expr.index(u['key'])]
+        want = env.hashes[env.keys.index(kv)]
         if u.get('key_hash') != want:
-            return 'diff.key_hash', f'key {u["key"]}: key_hash {u.get("key_hash")} expected {want}'
-    got = S.apply_diff(env.chain_by_hash, e)
+            return 'diff.key_hash', f'key {u["key"]}: key_hash {u.get("key_hash")} expected {want} (hash of the nested, legacy optimized form)'
+        if u.get('value') is not None:
+            got[u['key_hash']] = u['value']
+        else:
+            got.pop(u['key_hash'], None)
     final = ref.final()
-    want = {env.hashes[env.keys.index(k)]: (env.key_expr[env.keys.index(k)], {'int': str(v)}) for k, v in final.items()}
+    want = {env.hashes[env.keys.index(k)]: {'int': str(v)} for k, v in final.items()}
     if got != want:
-        return 'diff.applied', (f'diff applied to the on-chain contents gives {sorted((repr(k), v["int"]) for k, v in got.values())}, '
-                                f'reference dictionary {sorted((repr(env.key_expr[env.keys.index(k)]), str(v)) for k, v in final.items())}; '
+        name = {h: repr(env.key_expr[i]) for i, h in enumerate(env.hashes)}
+        return 'diff.applied', (f'diff applied to the on-chain contents gives {sorted((name[h], v["int"]) for h, v in got.items())}, '
+                                f'reference dictionary {sorted((name[h], v["int"]) for h, v in want.items())}; '
                                 f'updates {[(u["key"], u.get("value")) for u in e["diff"]["updates"]]}')
     return None
 
